@@ -43,9 +43,9 @@ constexpr auto floor_check(T const x) noexcept -> T
                   // +/- infinite
             !is_finite(x) ? x
                           :
-                          // signed-zero cases
-            etl::numeric_limits<T>::epsilon() > abs(x) ? x
-                                                       :
+                          // signed zeros, and values without a fractional part (keeps the conversion below in range)
+            (x == T(0) || abs(x) >= T(1) / etl::numeric_limits<T>::epsilon()) ? x
+                                                                              :
                                                        // else
             floor_int(x, T(static_cast<llint_t>(x)))
     );
